@@ -264,6 +264,51 @@ pub fn check_interior(sh: &mut Shard, a: &IG, lat: &Lat, verbose: bool) {
     sh.sample(|| json!({"kind": "interior_point", "geometry": format!("{:?}", g), "result": format!("{:?}", got)}));
 }
 
+/// A MultiPolygon (or a collection holding it) whose members include polygons WITHOUT area (a flat ring [p, q, p], a
+/// ring that is one coordinate) at any position, the first included, next to members that have area: g has interior
+/// of its own dimension, so the answer has to lie strictly inside one of the members that have area.
+pub fn check_interior_flat_members(sh: &mut Shard, a: &IG, extra: &[(usize, Vec<IP>)], wrap: bool, lat: &Lat, verbose: bool) {
+    use geo::{Geometry, GeometryCollection, LineString, MultiPolygon, Polygon};
+    let proper: Vec<Vec<Vec<IP>>> = match a {
+        IG::Polygon(r) => vec![r.clone()],
+        IG::MultiPolygon(ms) => ms.clone(),
+        _ => return,
+    };
+    let m = a.to_model();
+    let to_poly = |rings: &Vec<Vec<IP>>| -> Polygon<f64> {
+        let mut it = rings.iter().map(|r| LineString::new(r.iter().map(|&p| lat.c(p)).collect()));
+        let ext = it.next().unwrap_or_else(|| LineString::new(vec![]));
+        Polygon::new(ext, it.collect())
+    };
+    let mut members: Vec<Polygon<f64>> = proper.iter().map(to_poly).collect();
+    for (at, ring) in extra {
+        let at = (*at).min(members.len());
+        members.insert(at, to_poly(&vec![ring.clone()]));
+    }
+    let mp = MultiPolygon::new(members);
+    let det = |exp: &str, got: String| json!({"property": "C12", "check": "interior_point.strictly_inside", "kind": "flat_members", "a": a.json(), "extra": extra.iter().map(|(i, r)| json!([i, r])).collect::<Vec<_>>(), "wrap": wrap, "lat": lat.json(), "expected": exp, "got": got, "geo": format!("{:?}", mp)});
+    sh.eval(1);
+    let got = if wrap {
+        let gc = GeometryCollection::new_from(vec![Geometry::MultiPolygon(mp.clone())]);
+        call(|| gc.interior_point())
+    } else {
+        call(|| mp.interior_point())
+    };
+    if verbose {
+        println!("interior_point of {:?}{}: {:?}", mp, if wrap { " in a collection" } else { "" }, got);
+    }
+    let site = if wrap { "GeometryCollection[MultiPolygon with zero-area members]" } else { "MultiPolygon with zero-area members" };
+    match got {
+        Err(p) => sh.violation(&format!("interior_point.panic|{site}|-"), det("no panic", format!("panic: {p} at {}", last_panic_loc()))),
+        Ok(None) => sh.violation(&format!("interior_point.none_only_for_empty|{site}|-"), det("Some(point)", "None".into())),
+        Ok(Some(c)) => match lat.inv(c.0).map(|cq| guard(|| m.loc(cq))) {
+            Some(Ok(Loc::I)) => sh.class("interior:zero_area_members:inside_a_member_with_area"),
+            Some(Ok(l)) => sh.violation(&format!("interior_point.strictly_inside|{site}|-"), det("a point strictly inside a member that has area", format!("{:?} ({:?} with respect to the members that have area)", c, l))),
+            _ => sh.inconclusive("interior point not exactly representable / oracle"),
+        },
+    }
+}
+
 /// OBSERVE-ONLY. The statement of C12 speaks about closest_point and interior_point, not about the
 /// public `sweep::Intersections` iterator that interior_point uses internally. On the pinned tree the
 /// iterator misses some improper (T-junction) pairs once the coordinates carry an offset and very
@@ -458,6 +503,23 @@ pub fn run(ctx: &Ctx, sh: &mut Shard) {
         // segments) and empty members — closest_point must not let such a part spoil the answer
         let a = if r.chance(1, 3) { degenerate(&mut r, &a) } else { a };
         check_interior(sh, &a, &lat, false);
+        if matches!(a, IG::Polygon(_) | IG::MultiPolygon(_)) && !a.is_empty() && a.dim() == 2 && r.chance(1, 2) {
+            let n = r.range(1, 3);
+            let extra: Vec<(usize, Vec<IP>)> = (0..n)
+                .map(|j| {
+                    let p = (r.range(-2, g + 2), r.range(-2, g + 2));
+                    let q = (r.range(-2, g + 2), r.range(-2, g + 2));
+                    let ring = match r.below(4) {
+                        0 => vec![p],
+                        1 => vec![p, p, p],
+                        2 => vec![p, q, p],
+                        _ => vec![p, q, (2 * q.0 - p.0, 2 * q.1 - p.1), p],
+                    };
+                    (if j == 0 && r.chance(2, 3) { 0 } else { r.range(0, 4) as usize }, ring)
+                })
+                .collect();
+            check_interior_flat_members(sh, &a, &extra, r.chance(1, 3), &lat, false);
+        }
         if !a.is_empty() {
             for _ in 0..3 {
                 let q = interesting_point(&mut r, &a, g);
@@ -481,6 +543,11 @@ pub fn replay(v: &Value, sh: &mut Shard) {
     }
     let a = IG::from_json(&v["a"]).expect("a");
     println!("A = {:?}", a.to_geo(&lat));
+    if v["kind"].as_str() == Some("flat_members") {
+        let extra: Vec<(usize, Vec<IP>)> = v["extra"].as_array().unwrap().iter().map(|e| (e[0].as_u64().unwrap() as usize, e[1].as_array().unwrap().iter().map(|p| (p[0].as_i64().unwrap(), p[1].as_i64().unwrap())).collect())).collect();
+        check_interior_flat_members(sh, &a, &extra, v["wrap"].as_bool().unwrap_or(false), &lat, true);
+        return;
+    }
     if let Some(q) = v["q"].as_array() {
         check_closest(sh, &a, (q[0].as_i64().unwrap(), q[1].as_i64().unwrap()), &lat, true);
     } else {
